@@ -5,6 +5,7 @@ package tracechk
 import (
 	"fmt"
 	"math/big"
+	"os"
 	"sort"
 	"strings"
 
@@ -154,6 +155,26 @@ func c19Scalars(thorough bool) []*big.Int {
 	}
 
 	if thorough {
+		// all 3-bit deviations from 0 and from n-1 whose bits lie in the lowest 24 or the highest 24 positions
+		var pos []uint
+		for i := uint(0); i < 24; i++ {
+			pos = append(pos, i, 255-i)
+		}
+
+		for a := 0; a < len(pos); a++ {
+			for b := a + 1; b < len(pos); b++ {
+				for c := b + 1; c < len(pos); c++ {
+					m := new(big.Int).Lsh(one, pos[a])
+					m.Or(m, new(big.Int).Lsh(one, pos[b]))
+					m.Or(m, new(big.Int).Lsh(one, pos[c]))
+					add(m)
+					add(new(big.Int).Xor(nm1, m))
+				}
+			}
+		}
+	}
+
+	if thorough {
 		// every 16-bit window value at 16 offsets would be 1M runs; a 2^12 stride through them keeps the shape
 		for off := uint(0); off < 256; off += 16 {
 			for w := int64(1); w < 1<<16; w += 257 {
@@ -216,6 +237,13 @@ func C19(r *ev.Report) {
 		return
 	}
 
+	shardI, shardN := 0, 1
+	fmt.Sscanf(os.Getenv("VERIF_SHARD"), "%d/%d", &shardI, &shardN)
+
+	if shardN < 1 {
+		shardN = 1
+	}
+
 	rec := newRecorder()
 	ks := c19Scalars(ev.Thorough())
 	pts := points()
@@ -245,6 +273,10 @@ func C19(r *ev.Report) {
 		}
 
 		for i, k := range ks {
+			if i%shardN != shardI {
+				continue
+			}
+
 			r.Transitions.Add(1)
 			r.Evals.Add(1)
 			r.Distinct.Add(1)
@@ -269,7 +301,7 @@ func C19(r *ev.Report) {
 		r.Bound("trace_length_k=1["+p.name+"]", one.fieldN)
 	}
 
-	r.States.Add(int64(len(ks) * len(pts)))
+	r.States.Add(int64((len(ks) / shardN) * len(pts)))
 	r.Bound("distinct_field_traces_observed", len(distinct))
 	r.Sample(Case{"op": "trace", "point": "G", "k": new(big.Int).Sub(ref.N, big.NewInt(1)).Text(16)})
 	r.Sample(Case{"op": "trace", "point": "G", "k": "8000000000000000000000000000000000000000000000000000000000000000"})
